@@ -74,8 +74,8 @@ def run(ctx):
               "equal sizes, matmul path); non-trivial = point not a vertex")
   ctx.model("MC_LatticeEval", "LatEval_q.cfg")
   if not ctx.quick:
-    ctx.model("MC_LatticeEval", "LatEval_t1.cfg", timeout=7200)
-    ctx.model("MC_LatticeEval", "LatEval_t2.cfg", timeout=7200)
+    ctx.model("MC_LatticeEval", "LatEval_t1.cfg", timeout=14400)
+    ctx.model("MC_LatticeEval", "LatEval_t2.cfg", timeout=14400)
   ctx.exhaustive = True
   files = ctx.tlc_cases("GenLatticeEval", "GenLatEval.cfg", env={"VERIF_TIER": ctx.tier})
   rng = np.random.default_rng(ctx.seed + 202)
